@@ -301,12 +301,12 @@ func checkC19Lib(c C19Case) (o Outcome) {
 		}
 	}
 	// all goroutines of the loader and the pipeline are gone (nothing keeps running after an error)
-	deadline := time.Now().Add(3 * time.Second)
+	deadline := time.Now().Add(20 * time.Second)
 	for runtime.NumGoroutine() > before+2 && time.Now().Before(deadline) {
 		time.Sleep(5 * time.Millisecond)
 	}
 	if n := runtime.NumGoroutine(); n > before+2 {
-		o.Violation = V("goroutine-leak", "%d goroutines before, %d still running 3 s after the call returned (fault %q)", before, n, c.Fault).With("fault", c.Fault)
+		o.Violation = V("goroutine-leak", "%d goroutines before, %d still running 20 s after the call returned (fault %q)", before, n, c.Fault).With("fault", c.Fault)
 		return o
 	}
 	days := map[ref.Day]bool{}
